@@ -95,7 +95,7 @@ def box_chunk(task):
     from mc.env import box
     N, m, bx, via = task["N"], task["m"], task["box"], task.get("via")
     lo, up = box(bx, N)
-    side = np.array(up) - np.array(lo)
+    side = np.array(up, dtype=float) - np.array(lo, dtype=float)
     ev = curve.make_ev(N, m, bx, via)
     n = 2 ** (N * m)
     Y = np.array([ev.GetImage((i + 0.5) / n) for i in range(n)])
@@ -108,6 +108,8 @@ def box_chunk(task):
             msgs.append(f"{tag}: images of subintervals {i} and {i + 1} differ by {d.tolist()} cell widths (expected one "
                         f"width along one axis)")
             break
+    if not msgs:
+        msgs += curve.query_mix(ev, N, m, lo, up, tag)
     K = 2.0 * math.sqrt(N + 3) * float(side.max())
     pairs = 0
     worst = 0.0
@@ -199,7 +201,7 @@ def run(ctx):
     for (N, m) in curve.small_configs(8 if not th else 10):
         if N < 2:
             continue
-        for bx in BOXES:
+        for bx in BOXES + ("B4", "Z"):
             btasks.append(dict(N=N, m=m, box=bx, via=None))
         for via, bx in curve.VIA_PAIRS:
             btasks.append(dict(N=N, m=m, box=bx, via=via))
